@@ -5,7 +5,7 @@ cd "$(dirname "$0")"
 export CARGO_NET_OFFLINE=true
 mkdir -p logs evidence replays
 cp /repo/Cargo.lock harness/Cargo.lock
-( cd harness && cargo build --release --offline --target-dir "$(pwd)/../target" )
+( cd harness && cargo build --release --offline --target-dir "$(pwd)/../target" && cargo build --profile plain --offline --target-dir "$(pwd)/../target" )
 # warm the Miri build of the C05 leg (dependencies are interpreted, not compiled, but the
 # sysroot and the crate metadata are prepared once here instead of inside the first check)
 cp /repo/Cargo.lock miri/Cargo.lock
